@@ -19,6 +19,14 @@ import (
 const (
 	flushCommandBatch  = 8
 	flushBufferedBytes = 2048
+
+	// Limits on client-declared lengths (the same as Redis): a request may not announce
+	// more than 1M arguments or a bulk string above 512 MiB.
+	maxRESPArrayLen = 1 << 20
+	maxRESPBulkLen  = 512 << 20
+	// Memory for a request grows with the bytes that actually arrive, never with the
+	// declared length alone.
+	respReadChunk = 64 << 10
 )
 
 var (
@@ -455,7 +463,10 @@ func parseRESP(r *bufio.Reader) ([][]byte, error) {
 		if n < 0 {
 			return nil, nil
 		}
-		out := make([][]byte, 0, n)
+		if n > maxRESPArrayLen {
+			return nil, fmt.Errorf("invalid multibulk length")
+		}
+		out := make([][]byte, 0, min(n, 16))
 		for range n {
 			b, err := r.ReadByte()
 			if err != nil {
@@ -476,8 +487,11 @@ func parseRESP(r *bufio.Reader) ([][]byte, error) {
 				out = append(out, nil)
 				continue
 			}
-			buf := make([]byte, l)
-			if _, err := io.ReadFull(r, buf); err != nil {
+			if l > maxRESPBulkLen {
+				return nil, fmt.Errorf("invalid bulk length")
+			}
+			buf, err := readBulkPayload(r, l)
+			if err != nil {
 				return nil, err
 			}
 			if err := expectCRLF(r); err != nil {
@@ -504,6 +518,25 @@ func parseRESP(r *bufio.Reader) ([][]byte, error) {
 		}
 		return out, nil
 	}
+}
+
+// readBulkPayload reads l payload bytes. Large payloads are read chunk by chunk so that a
+// client cannot make the server allocate the declared length without sending the data.
+func readBulkPayload(r *bufio.Reader, l int) ([]byte, error) {
+	if l <= respReadChunk {
+		buf := make([]byte, l)
+		_, err := io.ReadFull(r, buf)
+		return buf, err
+	}
+	buf := make([]byte, 0, respReadChunk)
+	for len(buf) < l {
+		start := len(buf)
+		buf = append(buf, make([]byte, min(l-start, respReadChunk))...)
+		if _, err := io.ReadFull(r, buf[start:]); err != nil {
+			return nil, err
+		}
+	}
+	return buf, nil
 }
 
 func readLine(r *bufio.Reader) (string, error) {
